@@ -3,7 +3,7 @@ from lib.vf import Case
 from gen.common import *
 
 SDF = bytes([2, 0, 13]) + b"@setDataFrame"
-EXTFIX = 0   # 1 once lal writes the extended timestamp also for ts == 0xFFFFFF (fix F-01)
+EXTFIX = 1   # lal writes the extended timestamp also for ts == 0xFFFFFF (fix F-01, bee1ba4)
 
 
 def amf_str(s):
@@ -120,6 +120,25 @@ class Hist:
     def stop(self):
         self.ev.append("O")
 
+    def sdp(self):
+        self.uniq += 1
+        self.ev.append("S:763d30%04x+r%d.%d" % (self.uniq, self.rng.choice([40, 300]), self.uniq))
+
+    def describe(self):
+        i = self.next_id
+        self.next_id += 1
+        self.ev.append("D:%d" % i)
+        return i
+
+    def brk(self, i):
+        self.ev.append("B:%d" % i)
+
+    def tick(self):
+        self.ev.append("K")
+
+    def stop_quick(self):
+        self.ev.append("Oq")
+
     def ts(self, boundary):
         self.uniq += 1
         self.ev.append("T:47%04x+r%d.%d:%d" % (self.uniq, 188 * self.rng.choice([1, 2, 7]) - 3, self.uniq, 1 if boundary else 0))
@@ -185,6 +204,53 @@ def gen_histories(tier, rng, push_every=6, header_changes=False):
                     mids = [h.join(k) for k in kinds]
                 count += 1
                 yield Case(h.line(), cls="join-at-%s" % sname)
+    # systematic re-publish: consumers join at chosen points of the SECOND input of the name
+    for ci, cfg in enumerate(CFGS):
+        for s1 in ("av", "video", "hevc"):
+            for s2 in ("av", "audio", "video", "g711"):
+                for pos in (0, 2, 4, 99):
+                    if tier == "quick" and (ci + pos + len(s1) + len(s2)) % 2:
+                        continue
+                    c = dict(cfg)
+                    h = Hist(rng, c)
+                    stay = h.join(rng.choice(kinds))
+                    h.start()
+                    for idx, kind in enumerate(STREAMS[s1][:rng.choice([3, 5, 9])]):
+                        h.pub(kind, ts=idx * 40)
+                        if kind == "key":
+                            h.ts(True)
+                    h.stop()
+                    h.start()
+                    seq2 = STREAMS[s2][:8]
+                    for idx, kind in enumerate(seq2):
+                        if idx == pos:
+                            for k in kinds:
+                                h.join(k)
+                        h.pub(kind, ts=1000 + idx * 40)
+                        if rng.random() < 0.5:
+                            h.ts(kind == "key")
+                    if pos >= len(seq2):
+                        for k in kinds:
+                            h.join(k)
+                        h.pub("aac" if s2 != "g711" else "g711", ts=5000)
+                    yield Case(h.line(), cls="republish-%s-%s" % (s1, s2))
+    # a consumer whose connection is broken (its writes fail) while it is still attached:
+    # the others must not notice
+    for ci, cfg in enumerate(CFGS):
+        for sname in ("av", "audio"):
+            for nb in (1, 2):
+                c = dict(cfg)
+                c["mw"] = [0, 0, 1, 8192][(ci + nb) % 4]
+                h = Hist(rng, c)
+                h.start()
+                subs = [h.join(k) for k in ("r", "r", "r", "r", "f", "f", "w", "r")]
+                seq = STREAMS[sname]
+                for idx, kind in enumerate(seq):
+                    if idx == 4:
+                        for b in rng.sample(subs, nb):
+                            h.brk(b)
+                    h.pub(kind, ts=idx * 40)
+                yield Case(h.line(), cls="broken-conn")
     # random histories with re-publishing, several consumers, leaves
     n = 400 if tier == "quick" else 4000
     for k in range(n):
